@@ -372,6 +372,8 @@ def gen_mibcopy(rng, tier):
         scn['usage'] = True
     if index_dir is not None:
         scn['index_dir'] = index_dir
+    if rng.random() < 0.15:
+        scn['odd_names'] = True
     if rng.random() < 0.2:
         scn['normalised_mtime'] = True        # every file stamped 1980-01-01 (reproducible archives, image layers)
         if rng.random() < 0.6:
@@ -411,6 +413,10 @@ def run_mibcopy(scn):
         try:
             src = os.path.join(root, 'src')
             dst = os.path.join(root, 'dst')
+            if scn.get('odd_names'):
+                # directory names with characters that URL quoting would escape (the readers hand out file:// paths)
+                src = os.path.join(root, 'src dir#1 (v2) 100%41')
+                dst = os.path.join(root, 'dst \u00e9#2')
             base = os.path.join(root, 'base')
             contents = {}
             with core.unhooked():
@@ -566,7 +572,7 @@ def shrink(scn):
         s = copy.deepcopy(scn)
         s.pop('faults')
         yield s
-    for k in ('index_dir', 'normalised_mtime', 'fast_tables'):
+    for k in ('index_dir', 'normalised_mtime', 'fast_tables', 'odd_names'):
         if k in scn:
             s = copy.deepcopy(scn)
             s.pop(k)
